@@ -22,6 +22,7 @@ import (
 	"github.com/taurusgroup/multi-party-sig/internal/round"
 	"github.com/taurusgroup/multi-party-sig/pkg/party"
 	"github.com/taurusgroup/multi-party-sig/pkg/protocol"
+	"github.com/taurusgroup/multi-party-sig/protocols/example"
 )
 
 // ---- deterministic randomness ---------------------------------------------------------------
@@ -91,8 +92,41 @@ func (s *switchReader) Read(p []byte) (int, error) {
 var sw = &switchReader{cur: NewDRBG("default", 0)}
 var realReader io.Reader
 
+// notFinished holds the texts of the error Result() returns while a session is running.  They are
+// LEARNED from the library at start-up (a freshly started multi-party and two-party handler that has
+// not been given any message is by definition not finished), so that rewording the error does not
+// turn every running session into an "error" in the eyes of the checks.
+var notFinished = map[string]bool{"protocol: not finished": true}
+
+// IsNotFinished reports whether err is the library's "session still running" answer of Result().
+func IsNotFinished(err error) bool { return err != nil && notFinished[err.Error()] }
+
+func calibrate() {
+	defer func() { recover() }()
+	ids := party.NewIDSlice([]party.ID{"a", "b"})
+	if h, err := protocol.NewMultiHandler(example.StartXOR("a", ids), nil); err == nil && h != nil {
+		go func() {
+			for range h.Listen() {
+			}
+		}()
+		if r, e := h.Result(); r == nil && e != nil {
+			notFinished[e.Error()] = true
+		}
+	}
+	if h, err := protocol.NewTwoPartyHandler(example.StartXOR("a", ids), nil, false); err == nil && h != nil {
+		go func() {
+			for range h.Listen() {
+			}
+		}()
+		if r, e := h.Result(); r == nil && e != nil {
+			notFinished[e.Error()] = true
+		}
+	}
+}
+
 // Install replaces crypto/rand.Reader by the switchable deterministic reader.
 func Install() {
+	calibrate()
 	if realReader == nil {
 		realReader = rand.Reader
 	}
@@ -275,7 +309,7 @@ func (p *Party) Status() string {
 	if r != nil {
 		return "done"
 	}
-	if err != nil && err.Error() == "protocol: not finished" {
+	if IsNotFinished(err) {
 		return "running"
 	}
 	return "error"
